@@ -27,7 +27,8 @@ through the same route = shared-namespace second read); the oracle is the same.
 Sub-checks: valid (generated + corpus documents parse and deliver their content), prefix (EVERY prefix of corpus and
 generated documents), edit (1-2 local edits of valid documents), dup (one taxon symbol replaced by a respelling of
 another: same label, case variant, TRANSLATE token / taxon number), row (a NEXUS matrix row copied under an extra or
-misspelt label, or renamed), soup (token soups), deep (deeply nested Newick)."""
+misspelt label, or renamed; or one data line of a NEXUS / PHYLIP / FASTA matrix of any data type made one symbol longer or
+shorter), soup (token soups), deep (deeply nested Newick)."""
 import io
 import re
 import sys
@@ -47,7 +48,9 @@ CONFIG = {
              "interleaved; FASTA) of <= 400 (quick) / <= 800 (thorough) characters; (edit) 1-2 edits (delete char, "
              "delete span, delete token, insert char, replace char, insert keyword, duplicate span) of such documents; "
              "(dup) one taxon symbol replaced by another taxon's label, case variant, TRANSLATE token or number; "
-             "(row) a NEXUS matrix row copied under an extra / misspelt label or renamed; "
+             "(row) a NEXUS matrix row copied under an extra / misspelt label or renamed, or one data line (row or "
+             "interleave segment, any row) of a NEXUS/PHYLIP/FASTA matrix of any data type lengthened by a symbol "
+             "(match character, state symbol, multistate group, further value) or shortened; "
              "(soup) token sequences over each format's alphabet; (deep) Newick nesting depths 10..6000; (valid) the "
              "unmodified documents, which must parse on every route and deliver the abstract content they were "
              "written from; (atheris, thorough tier only) a coverage-guided campaign over bytes -> (reader variant, "
@@ -80,7 +83,7 @@ CONFIG = {
 }
 
 TOTALS = {
-    "quick": {"prefix_docs": 72, "max_len": 400, "valid": 1000, "edit": 4000, "dup": 1600, "row": 800, "soup": 8000},
+    "quick": {"prefix_docs": 72, "max_len": 400, "valid": 1000, "edit": 4000, "dup": 1600, "row": 1600, "soup": 8000},
     "thorough": {"prefix_docs": 320, "max_len": 800, "valid": 12000, "edit": 50000, "dup": 15000, "row": 10000, "soup": 30000,
                  "atheris_runs": 160000},
 }
@@ -761,12 +764,12 @@ def sub_dup(ctx, case):
 _ROW = re.compile(r"^(\s*)('(?:[^']|'')*'|[^\s;']+)(\s+\S.*)$")
 
 
-def row_text(case):
-    """A matrix row with an extra or misspelt label: in a valid NEXUS document every MATRIX line that starts with the
-    chosen row's label (one line when sequential, one per block when interleaved) is copied under a new label
-    ("extra"), relabelled ("rename") or copied under a misspelt label ("misspelt")."""
-    text = case["doc"]["text"]
-    lines = text.split("\n")
+ROW_SYMBOLS = [".", ".", "A", "?", "-", "0", "..", ".A", "{AG}", "N.", " 9.99", " 1 2", " .", "x", "1"]
+ROW_OPS = ("extra", "misspelt", "rename", "lengthen", "lengthen", "lengthen", "shorten")
+
+
+def _nexus_matrix_rows(lines):
+    """[(line index, match)] of the lines that start a row (or a row's segment) inside NEXUS MATRIX statements"""
     rows = []
     inside = False
     for i, line in enumerate(lines):
@@ -781,11 +784,62 @@ def row_text(case):
                 inside = False
         elif line.strip().upper() == "MATRIX":
             inside = True
+    return rows
+
+
+def _resize(line, op, sym):
+    """a data line one symbol (value) longer / shorter; a terminating ';' stays last"""
+    body = line.rstrip()
+    semi = body.endswith(";")
+    if semi:
+        body = body[:-1].rstrip()
+    if op == "lengthen":
+        body += sym
+    else:
+        cut = body.rstrip()
+        # drop the last value (continuous) or the last symbol
+        if " " in cut.strip() and cut.split()[-1].replace(".", "").replace("-", "").replace("e", "").isdigit() and \
+                len(cut.split()[-1]) > 1:
+            body = cut[:len(cut) - len(cut.split()[-1])].rstrip()
+        else:
+            body = cut[:-1]
+    return body + (";" if semi else "")
+
+
+def row_text(case):
+    """A matrix whose rows contradict the declaration, made from a valid NEXUS / PHYLIP / FASTA document:
+      extra / misspelt / rename (NEXUS): every MATRIX line that starts with the chosen row's label (one line when
+        sequential, one per block when interleaved) is copied under a new label, copied under a misspelt label, or
+        relabelled;
+      lengthen / shorten (all three formats, every data type, sequential and interleaved): one data line - a whole row
+        or one segment of it, the first row or a later one - gets one more symbol from ROW_SYMBOLS (match character,
+        state symbols, multistate group, a further value ...) or loses its last symbol / value."""
+    d = case["doc"]
+    text = d["text"]
+    lines = text.split("\n")
+    op = case["op"]
+    sym = ROW_SYMBOLS[case.get("sym", 0) % len(ROW_SYMBOLS)]
+    if d["schema"] != "nexus":
+        if op not in ("lengthen", "shorten"):
+            op = "lengthen" if op != "misspelt" else "shorten"
+        if d["schema"] == "phylip":
+            data = [i for i, l in enumerate(lines) if i > 0 and l.strip()]
+        else:
+            data = [i for i, l in enumerate(lines) if l.strip() and not l.lstrip().startswith(">")]
+        if not data:
+            return text
+        k = data[case["row"] % len(data)]
+        lines[k] = _resize(lines[k], op, sym)
+        return "\n".join(lines)
+    rows = _nexus_matrix_rows(lines)
     if not rows:
         return text
-    _, chosen = rows[case["row"] % len(rows)]
+    k, chosen = rows[case["row"] % len(rows)]
+    if op in ("lengthen", "shorten"):
+        lines[k] = _resize(lines[k], op, sym)
+        return "\n".join(lines)
     label = chosen.group(2)
-    if case["op"] == "misspelt" and not label.startswith("'"):
+    if op == "misspelt" and not label.startswith("'"):
         new = label + "x"
     else:
         new = ["Xtra", "'new one'", "zq9"][case["row"] % 3]
@@ -793,7 +847,7 @@ def row_text(case):
     for i, line in enumerate(lines):
         m = _ROW.match(line) if any(i == j for j, _ in rows) else None
         if m is not None and m.group(2) == label:
-            if case["op"] == "rename":
+            if op == "rename":
                 out.append(m.group(1) + new + m.group(3))
             else:
                 tail = m.group(3)
@@ -806,10 +860,12 @@ def row_text(case):
 
 
 def sub_row(ctx, case):
-    """case: {"doc": slim NEXUS document, "row": int, "op": "extra"|"misspelt"|"rename", "ns_mode": None|...}"""
+    """case: {"doc": slim NEXUS/PHYLIP/FASTA document, "row": int, "op": one of ROW_OPS, "sym": int,
+    "ns_mode": None|...}"""
     d = case["doc"]
     text = row_text(case)
-    ctx.cls("row:%s:%s" % (case["op"], "changed" if text != d["text"] else "no_matrix"))
+    ctx.cls("row:%s:%s:%s:%s" % (d["schema"], d.get("matrix_type"), case["op"],
+                                 "changed" if text != d["text"] else "no_matrix"))
     run_text(ctx, text, d["schema"], d["kwargs"], d.get("matrix_type"), ns_for(d, case.get("ns_mode")))
     if text != d["text"]:
         ctx.nontrivial(canon(d["schema"], d["kwargs"], text))
@@ -916,7 +972,8 @@ NS_SOUP = st.sampled_from([None, None, {"mode": "labels", "labels": UNRELATED_LA
 def soup_cases():
     def one(schema):
         if schema == "phylip":
-            kw = st.fixed_dictionaries({"data_type": st.sampled_from(["dna", "standard"]), "strict": st.booleans(),
+            kw = st.fixed_dictionaries({"data_type": st.sampled_from(["dna", "standard", "continuous", "protein"]),
+                                        "strict": st.booleans(),
                                         "interleaved": st.booleans()})
         elif schema == "fasta":
             kw = st.fixed_dictionaries({"data_type": st.sampled_from(["dna", "protein"])})
@@ -1072,11 +1129,12 @@ def run(ctx):
                                        "ns_mode": st.sampled_from((None, None) + NS_MODES)})
     runner.run_given(ctx, "dup", dup_cases, sub_dup, per(tot["dup"]))
 
-    # (2c) NEXUS matrix with an extra / misspelt / renamed row label
+    # (2c) matrix rows that contradict the declaration: extra / misspelt / renamed row label (NEXUS); a data line one
+    # symbol or value longer / shorter (NEXUS, PHYLIP, FASTA; every data type; sequential and interleaved)
     row_cases = st.fixed_dictionaries({
-        "doc": docs.documents(max_len=max_len, schemas=("nexus",), large=large).filter(
+        "doc": docs.documents(max_len=max_len, schemas=("nexus", "phylip", "fasta"), large=large).filter(
             lambda d: bool(d["content"]["matrices"])).map(slim),
-        "row": st.integers(0, 50), "op": st.sampled_from(["extra", "extra", "misspelt", "rename"]),
+        "row": st.integers(0, 50), "op": st.sampled_from(ROW_OPS), "sym": st.integers(0, len(ROW_SYMBOLS) - 1),
         "ns_mode": st.sampled_from((None, "empty", "empty", "unrelated", "own", "reread"))})
     runner.run_given(ctx, "row", row_cases, sub_row, per(tot["row"]))
 
